@@ -612,6 +612,13 @@ fn predict_lru(
         purge(&mut r, m);
         evict_excess(&mut r);
     }
+    // S in the housekeeping regime in which insert / get / invalidate first run the pending
+    // maintenance (and the clock may have moved since the last pass): that pass purges and
+    // trims before the call's own effect is queued
+    if !u && !cfg.beyond && cfg.lazyadv && matches!(op, Op::Ins(..) | Op::Get(_) | Op::Inv(_)) {
+        purge(&mut r, m_after);
+        evict_excess(&mut r);
+    }
     let mut decision = None;
     let lru_before: Vec<u8> = r.iter().map(|x| x.0).collect();
     match op {
@@ -918,7 +925,7 @@ pub fn step(cfg: &Cfg, sut: &mut Sut, m: &mut Model, pre: &Snapshot, op: Op, has
         match op {
             Op::Sync => m.maintained = true,
             Op::Con(_) | Op::Iter => {}
-            _ => m.maintained = cfg.autosync,
+            _ => m.maintained = cfg.autosync && !(cfg.lazyadv && matches!(op, Op::Adv(_))),
         }
     }
 
@@ -1184,7 +1191,7 @@ pub fn step(cfg: &Cfg, sut: &mut Sut, m: &mut Model, pre: &Snapshot, op: Op, has
         // judged in hindsight, so only where the size eviction is the last thing the step
         // did: U get/contains_key (purge, evict, then only read); S an explicit or
         // automatic sync() (writes and purge come before the eviction inside the run)
-        let eviction_last = if u { matches!(op, Op::Get(_) | Op::Con(_)) } else { matches!(op, Op::Sync) || cfg.autosync };
+        let eviction_last = if u { matches!(op, Op::Get(_) | Op::Con(_)) } else { matches!(op, Op::Sync) || (cfg.autosync && !(cfg.lazyadv && matches!(op, Op::Adv(_)))) };
         // a key whose first insert was still queued and that is absent afterwards may have
         // been admitted and evicted inside the run: then the visible victims are not all
         let transient = pre.write_ops.iter().any(|o| matches!(o, OpSnap::Upsert { entry, .. } if !entry.admitted && !post_phys.contains_key(&(entry.key as u8))))
@@ -1415,7 +1422,7 @@ pub fn step(cfg: &Cfg, sut: &mut Sut, m: &mut Model, pre: &Snapshot, op: Op, has
     viol.extend(walk(cfg, &post, quiescent));
 
     // ---- C12 / C13: recency order, victims, admission decision
-    if cfg.lru && (u || cfg.autosync) {
+    if cfg.lru && (u || cfg.autosync) && !(cfg.lazyadv && matches!(op, Op::Adv(_))) {
         let (want, decision, lru_before) = predict_lru(cfg, &m_pre, m, pre, op, &est);
         let got: Vec<u8> = post.probation.nodes.iter().map(|n| n.key as u8).collect();
         // a dead entry that maintenance failed to purge is reported by the release
@@ -1514,7 +1521,7 @@ pub fn step(cfg: &Cfg, sut: &mut Sut, m: &mut Model, pre: &Snapshot, op: Op, has
     // on are recorded
     if let Some(cap) = cfg.cap {
         let reached = post.weighted_size >= cap / 2;
-        let checked_now = if u { matches!(op, Op::Ins(k, _) if !pre_phys.contains_key(&k) && post_phys.contains_key(&k)) } else { m.maintained && matches!(op, Op::Sync) || cfg.autosync };
+        let checked_now = if u { matches!(op, Op::Ins(k, _) if !pre_phys.contains_key(&k) && post_phys.contains_key(&k)) } else { m.maintained && matches!(op, Op::Sync) || (cfg.autosync && !(cfg.lazyadv && matches!(op, Op::Adv(_)))) };
         if checked_now && reached && !post.sketch.enabled {
             let d = format!("after {}: weighted_size {} >= max_capacity/2 = {} but the popularity sketch is still disabled (lookups are not recorded)", op.text(), post.weighted_size, cap / 2);
             viol.push(v("C14", format!("{kdn}:sketch-not-enabled-at-half-full"), d.clone()));
